@@ -39,6 +39,9 @@ type Step struct {
 	B   int64  `json:"b,omitempty"`
 	C   int64  `json:"c,omitempty"`
 	Str string `json:"str,omitempty"`
+	// Op: for a crash with A == 2, the kind of storage operation (rename, sync, remove, ...)
+	// whose B-th next occurrence on the node triggers the crash.
+	Op string `json:"op,omitempty"`
 }
 
 func (s Step) String() string {
@@ -56,6 +59,9 @@ func (s Step) String() string {
 	if s.Str != "" {
 		fmt.Fprintf(&b, " %q", s.Str)
 	}
+	if s.Op != "" {
+		fmt.Fprintf(&b, " op=%s", s.Op)
+	}
 	return b.String()
 }
 
@@ -71,6 +77,7 @@ const (
 	StepClockRate  = "clockrate"   // Node; A/B = rate numerator / denominator
 	StepStall      = "stall"       // Node; A = duration ms
 	StepNetMode    = "netmode"     // A = drop permille, B = dup permille, C = max delay ms
+	StepSlowLink   = "slowlink"    // Node, Nodes; A = extra one-way delay ms; B = 0 Node->Nodes, 1 Nodes->Node
 	StepAddServer  = "addserver"   // Node = id to add; A = 1 voter, 0 non-voter; Str = target ("" = any)
 	StepRemove     = "removeserver"
 	StepStopStart  = "stopstart"   // Node; graceful Stop then Restart; A = pause ms; B: 0 Restart, 1 Start
